@@ -17,7 +17,7 @@
 (* a deterministic value is a singleton.  AnyPos stands for "some positive *)
 (* number" (numeric extremes: the text only demands a value in range).     *)
 (***************************************************************************)
-EXTENDS Naturals, Integers, Sequences, FiniteSets, TLC
+EXTENDS Naturals, Integers, Sequences, FiniteSets, TLC, ConfigNum
 
 NoVal  == "unset"
 NoSeq  == <<"unset">>              \* "not configured" for sequence-valued fields (TLC compares like with like)
@@ -46,7 +46,7 @@ IsLinkLocal(a) == a \in {"fe80::1", "fe80::2", "fe80::3", "fe80::4", "fe80::5", 
 IsBlacklisted(a) == a \in {"fec0::1"}
 \* interfaces the harness promises: the real loopback and (virtual interface table installed through
 \* ares_set_socket_functions_ex) one whose name has the maximum legal length of 15 characters
-ValidIface(i) == i \in {"lo", "verylongiface01"}
+ValidIface(i) == i \in {"lo", "verylongiface01", "vif2"}
 
 Port(p, chanport) == IF p # 0 THEN p ELSE IF chanport # 0 THEN chanport ELSE 53
 
@@ -103,10 +103,67 @@ ExtremeClasses == {"opt_ndots_weird", "opt_ndots_big", "opt_timeout_huge", "opt_
 
 Classes == ValidClasses \cup JunkClasses \cup ExtremeClasses
 
-Kind(c) == IF c \in JunkClasses THEN "junk" ELSE IF c \in ExtremeClasses THEN "extreme" ELSE "valid"
+(***************************************************************************)
+(* Numeric line classes: one class per (form, numeral) / (option key,      *)
+(* numeral) / (address family, numeral); the numerals and the rules are    *)
+(* those of ConfigNum.tla.  The class NAME carries the form and the text   *)
+(* of the numeral (ns_num_uri4_123456, opt_num_ndots_16, sort_num_v4_33);  *)
+(* kind, effect and line text are COMPUTED from the rule, never listed.    *)
+(* Only numerals with a definite outcome appear on resolv.conf lines (the  *)
+(* "..._or_refused" ones are exercised through ares_set_servers_csv /      *)
+(* ares_set_sortlist, ConfigStrings.tla, where alternatives are allowed).  *)
+(***************************************************************************)
+\* nameserver forms that carry a port; one address per form
+NsForms == {"v4", "v6", "uri4", "uri6", "tcp"}
+NsFormAddr(f) == CASE f = "v4" -> "10.0.1.1" [] f = "v6" -> "2001:db8:1::1" [] f = "uri4" -> "10.0.1.2"
+                   [] f = "uri6" -> "2001:db8:1::2" [] f = "tcp" -> "10.0.1.3"
+\* the server entry as text, t = text of the numeral
+NsFormText(f, t) == CASE f = "v4"   -> "10.0.1.1:" \o t
+                      [] f = "v6"   -> "[2001:db8:1::1]:" \o t
+                      [] f = "uri4" -> "dns://10.0.1.2:" \o t
+                      [] f = "uri6" -> "dns://[2001:db8:1::2]:" \o t
+                      [] f = "tcp"  -> "dns://10.0.1.3:55?tcpport=" \o t
+\* what the entry denotes when its numeral is taken as the port p (0 = the default port)
+NsFormDesc(f, p) == IF f = "tcp" THEN Srv(NsFormAddr(f), 55, p, "") ELSE Srv(NsFormAddr(f), p, p, "")
+
+DefinitePorts == {n \in PortNums : PortRule(n) \in {"value", "refused"}}
+NsNumName(f, n) == "ns_num_" \o f \o "_" \o NumText(n)
+NsNumClasses == {NsNumName(f, n) : f \in NsForms, n \in DefinitePorts}
+NsNumTab == [c \in NsNumClasses |-> CHOOSE p \in NsForms \X DefinitePorts : NsNumName(p[1], p[2]) = c]
+
+OptNumName(k, n) == "opt_num_" \o k \o "_" \o NumText(n)
+OptNumPairs == UNION {{<<k, n>> : n \in OptNums(k)} : k \in OptKeys}
+OptNumClasses == {OptNumName(p[1], p[2]) : p \in OptNumPairs}
+OptNumTab == [c \in OptNumClasses |-> CHOOSE p \in OptNumPairs : OptNumName(p[1], p[2]) = c]
+
+SortFams == {"v4", "v6"}
+SortNumAddr(f) == IF f = "v4" THEN "10.1.0.0" ELSE "2001:db8:1::"
+SortNumEntry(f, n) == SortNumAddr(f) \o "/" \o ToString(n.v)          \* how the entry reads back
+SortNumName(f, n) == "sort_num_" \o f \o "_" \o NumText(n)
+SortNumPairs == UNION {{<<f, n>> : n \in {m \in MaskNums(f) : MaskRule(f, m) \in {"value", "refused"}}} : f \in SortFams}
+SortNumClasses == {SortNumName(p[1], p[2]) : p \in SortNumPairs}
+SortNumTab == [c \in SortNumClasses |-> CHOOSE p \in SortNumPairs : SortNumName(p[1], p[2]) = c]
+
+NumClasses == NsNumClasses \cup OptNumClasses \cup SortNumClasses
+AllClasses == Classes \cup NumClasses
+
+NumKind(c) ==
+  IF c \in NsNumClasses THEN (IF PortRule(NsNumTab[c][2]) = "value" THEN "valid" ELSE "junk")
+  ELSE IF c \in SortNumClasses THEN (IF MaskRule(SortNumTab[c][1], SortNumTab[c][2]) = "value" THEN "valid" ELSE "junk")
+  ELSE LET r == OptRule(OptNumTab[c][1], OptNumTab[c][2])
+       IN IF r = "value" THEN "valid" ELSE IF r = "ignored" THEN "junk" ELSE "extreme"
+
+Kind(c) == IF c \in JunkClasses THEN "junk" ELSE IF c \in ExtremeClasses THEN "extreme"
+           ELSE IF c \in NumClasses THEN NumKind(c) ELSE "valid"
+
+NumLineText(c) ==
+  IF c \in NsNumClasses THEN "nameserver " \o NsFormText(NsNumTab[c][1], NumText(NsNumTab[c][2]))
+  ELSE IF c \in SortNumClasses THEN "sortlist " \o SortNumAddr(SortNumTab[c][1]) \o "/" \o NumText(SortNumTab[c][2])
+  ELSE "options " \o OptNumTab[c][1] \o ":" \o NumText(OptNumTab[c][2])
 
 LineText(c) ==
-  CASE c = "ns_a" -> "nameserver 10.0.0.1"         [] c = "ns_b" -> "nameserver 10.0.0.2"
+  CASE c \in NumClasses -> NumLineText(c)
+    [] c = "ns_a" -> "nameserver 10.0.0.1"         [] c = "ns_b" -> "nameserver 10.0.0.2"
     [] c = "ns_6" -> "nameserver 2001:db8::1"      [] c = "ns_ap" -> "nameserver 10.0.0.1:5353"
     [] c = "ns_6p" -> "nameserver [2001:db8::2]:5353"
     [] c = "ns_ll" -> "nameserver fe80::1%lo"      [] c = "ns_bad" -> "nameserver 999.1.1.1"
@@ -151,8 +208,25 @@ OptNdots(s, n)   == [s EXCEPT !.ndots = {n}]
 OptTimeout(s, n) == [s EXCEPT !.timeout = {n * 1000}]
 OptTries(s, n)   == [s EXCEPT !.tries = {n}]
 
+\* a numeric class: the rule of ConfigNum.tla decides
+NumEff(s, c) ==
+  IF c \in NsNumClasses
+  THEN LET f == NsNumTab[c][1]  n == NsNumTab[c][2]
+       IN IF PortRule(n) = "value" THEN [s EXCEPT !.servers = Append(@, NsFormDesc(f, n.v))] ELSE s
+  ELSE IF c \in SortNumClasses
+  THEN LET f == SortNumTab[c][1]  n == SortNumTab[c][2]
+       IN IF MaskRule(f, n) = "value" THEN [s EXCEPT !.sortlist = <<SortNumEntry(f, n)>>] ELSE s
+  ELSE LET k == OptNumTab[c][1]  n == OptNumTab[c][2]  r == OptRule(k, n)
+       IN CASE r = "ignored" -> s
+            [] r = "value"   -> (CASE k = "ndots" -> OptNdots(s, n.v) [] k = "timeout" -> OptTimeout(s, n.v)
+                                   [] k = "attempts" -> OptTries(s, n.v))
+            [] r = "extreme" -> (CASE k = "ndots" -> [s EXCEPT !.ndots = @ \cup (0..15)]
+                                   [] k = "timeout" -> [s EXCEPT !.timeout = @ \cup {AnyPos}]
+                                   [] k = "attempts" -> [s EXCEPT !.tries = @ \cup {AnyPos}])
+
 Eff(s, c) ==
-  CASE c \in NsClasses       -> [s EXCEPT !.servers = Append(@, NsDesc(c))]
+  CASE c \in NumClasses      -> NumEff(s, c)
+    [] c \in NsClasses       -> [s EXCEPT !.servers = Append(@, NsDesc(c))]
     \* "domain" is legacy: it never replaces a list that an earlier search/domain line set
     [] c = "dom_a"           -> IF s.domains = NoSeq THEN [s EXCEPT !.domains = <<"a.example">>] ELSE s
     [] c = "dom_two"         -> IF s.domains = NoSeq THEN [s EXCEPT !.domains = <<"e.example">>] ELSE s
